@@ -138,20 +138,17 @@ MaskGrows ==
 (* a larger tolerance never detects less; a longer window never detects more *)
 TolMonotone ==
   hist # << >> =>
-  \A c1 \in DefCat, c2 \in DefCat :
-     (/\ c1.k = c2.k /\ c1.g = c2.g /\ c1.tgt = c2.tgt /\ c1.off = c2.off
-      /\ c1.tol[1] * c2.tol[2] <= c2.tol[1] * c1.tol[2]) => Detect(c1, hist) \subseteq Detect(c2, hist)
+  \A c \in DefCat, t \in Tols :
+     c.tol[1] * t[2] <= t[1] * c.tol[2] => Detect(c, hist) \subseteq Detect([c EXCEPT !.tol = t], hist)
 WindowMonotone ==
   hist # << >> =>
-  \A c1 \in DefCat, c2 \in DefCat :
-     (/\ c1.k = c2.k /\ c1.tol = c2.tol /\ c1.tgt = c2.tgt /\ c1.off = c2.off
-      /\ c1.g > 0 /\ c2.g > 0 /\ c1.g <= c2.g) => Detect(c2, hist) \subseteq Detect(c1, hist)
+  \A c \in DefCat, g \in Gens :
+     (c.g > 0 /\ g > 0 /\ c.g <= g) => Detect([c EXCEPT !.g = g], hist) \subseteq Detect(c, hist)
 (* windows None, 0 and anything >= the history length all see the whole history *)
 WholeHistory ==
   hist # << >> =>
-  \A c1 \in DefCat, c2 \in DefCat :
-     (/\ c1.k = c2.k /\ c1.tol = c2.tol /\ c1.tgt = c2.tgt /\ c1.off = c2.off
-      /\ c1.g \in {None, 0} /\ (c2.g \in {None, 0} \/ c2.g >= Len(hist))) => Detect(c1, hist) = Detect(c2, hist)
+  \A c \in DefCat, g \in Gens :
+     (c.g \in {None, 0} /\ (g \in {None, 0} \/ g >= Len(hist))) => Detect(c, hist) = Detect([c EXCEPT !.g = g], hist)
 
 -----------------------------------------------------------------------------
 (* emission *)
